@@ -41,6 +41,15 @@ func (v *View) Print(n int) error {
 		begin = 0
 	}
 	end := begin + n
+	if l := v.Lines.Len(); end > l {
+		// There are not enough lines below the cursor. Show more lines
+		// above it instead.
+		end = l
+		begin = end - n
+		if begin < 0 {
+			begin = 0
+		}
+	}
 
 	for i := begin; i < end; i++ {
 		fmt.Print(v.Format(i))
